@@ -1,8 +1,9 @@
 #!/usr/bin/env python3
-"""Regenerate anchors.json: for every property, the local-variable names of the consulted functions
-that the rule texts mention literally. Run on a tree where every check passes (the pinned tree).
-At check time a verdict about a function whose listed local no longer occurs in it is downgraded
-to UNDECIDED (a renamed local cannot be told from a broken one)."""
+"""Regenerate anchors.json: for every RULE, the local-variable names of the consulted functions that
+the rule's own text (and the helpers it calls) mentions literally.  Run on a tree where every check
+passes (the pinned tree).  At check time a VIOLATED verdict of that rule about a function in which
+such a local no longer occurs is downgraded to UNDECIDED (a renamed local cannot be told from a
+broken one); verdicts of rules that do not mention the name are unaffected."""
 import ast, importlib, json, os, re, sys
 HERE = os.path.dirname(os.path.dirname(os.path.abspath(__file__)))
 sys.path.insert(0, HERE)
@@ -11,27 +12,46 @@ from vk.loader import Program
 from vk import report, astx, da
 
 ALL = ["C01", "C02", "C03", "C04", "C05", "C06", "C08", "C09", "C10", "C11", "C12", "C13", "C14", "C15", "C16", "C17", "C18", "C20"]
+IDENT = re.compile(r"(?<![\w.])[A-Za-z_][A-Za-z0-9_]*")
+_mods = {}
 
 
-def tokens_of(path, seen=None):
-    seen = seen or set()
-    if path in seen:
+def module_info(name):
+    """{function name: (string tokens, local calls, [(module, function)] cross-module calls)}"""
+    if name in _mods:
+        return _mods[name]
+    tree = ast.parse(open(os.path.join(HERE, "rules", name + ".py")).read())
+    info = {}
+    fnames = {n.name for n in tree.body if isinstance(n, ast.FunctionDef)}
+    for fn in (n for n in tree.body if isinstance(n, ast.FunctionDef)):
+        toks, calls, xcalls = set(), set(), set()
+        for n in ast.walk(fn):
+            if isinstance(n, ast.Constant) and isinstance(n.value, str):
+                toks |= set(IDENT.findall(n.value))
+            if isinstance(n, ast.Name) and n.id in fnames and n.id != fn.name:
+                calls.add(n.id)
+            if isinstance(n, ast.Attribute) and isinstance(n.value, ast.Name) and re.fullmatch(r"c\d\d", n.value.id):
+                xcalls.add((n.value.id, n.attr))
+        info[fn.name] = (toks, calls, xcalls)
+    _mods[name] = info
+    return info
+
+
+def closure_tokens(mod, fname, seen=None):
+    seen = seen if seen is not None else set()
+    if (mod, fname) in seen:
         return set()
-    seen.add(path)
-    src = open(path).read()
-    tree = ast.parse(src)
-    toks = set()
-    # only the rule code, not the FAULTS / BENIGN tables (they quote source text wholesale)
-    cut = min([n.lineno for n in tree.body if isinstance(n, (ast.Assign, ast.AugAssign)) and any(getattr(t, "id", "") in ("FAULTS", "BENIGN")
-               for t in (n.targets if isinstance(n, ast.Assign) else [n.target]))] or [10 ** 9])
-    for n in ast.walk(tree):
-        if isinstance(n, ast.Constant) and isinstance(n.value, str) and getattr(n, "lineno", 0) < cut:
-            # identifiers that stand on their own in the string (attribute names after a dot are not locals)
-            toks |= set(re.findall(r"(?<![\w.])[A-Za-z_][A-Za-z0-9_]*", n.value))
-        if isinstance(n, ast.ImportFrom) and n.module == "rules":
-            for a in n.names:
-                toks |= tokens_of(os.path.join(HERE, "rules", a.name + ".py"), seen)
-    return toks
+    seen.add((mod, fname))
+    info = module_info(mod)
+    if fname not in info:
+        return set()
+    toks, calls, xcalls = info[fname]
+    out = set(toks)
+    for c in calls:
+        out |= closure_tokens(mod, c, seen)
+    for m, c in xcalls:
+        out |= closure_tokens(m, c, seen)
+    return out
 
 
 def main():
@@ -40,24 +60,28 @@ def main():
     for p in ALL:
         mod = importlib.import_module(f"rules.{p.lower()}")
         res = report.run_property(p, mod, prog, "quick")
-        toks = tokens_of(os.path.join(HERE, "rules", p.lower() + ".py"))
-        per = {}
-        for qn in sorted(res.ctx.functions_consulted):
-            f = prog.functions.get(qn)
-            if f is None or isinstance(f.node, ast.Lambda):
-                continue
-            loc = da.local_names(f.node) - set(f.params)
-            # loop / comprehension variables are derived by the rules from the code, never quoted: not anchors
-            for n in astx.walk_own(f.node):
-                if isinstance(n, ast.For):
-                    loc -= set(astx.assigned_names(n.target))
-            hit = sorted(x for x in loc & toks if len(x) > 1)
-            if hit:
-                per[qn] = hit
-        out[p] = per
+        per_rule = {}
+        for rule_id, fn, _floor, _desc in mod.RULES:
+            toks = closure_tokens(p.lower(), fn.__name__)
+            funcs = sorted({o.function for o in res.ctx.obs if o.rule == rule_id and o.function != "<package>"})
+            per = {}
+            for qn in funcs:
+                f = prog.functions.get(qn)
+                if f is None or isinstance(f.node, ast.Lambda):
+                    continue
+                loc = da.local_names(f.node) - set(f.params)
+                for n in astx.walk_own(f.node):
+                    if isinstance(n, ast.For):
+                        loc -= set(astx.assigned_names(n.target))
+                hit = sorted(x for x in loc & toks if len(x) > 1)
+                if hit:
+                    per[qn] = hit
+            if per:
+                per_rule[rule_id] = per
+        out[p] = per_rule
     with open(os.path.join(HERE, "anchors.json"), "w") as fh:
         json.dump(out, fh, indent=1, sort_keys=True)
-    print({p: sum(len(v) for v in out[p].values()) for p in out})
+    print({p: sum(len(v) for r in out[p].values() for v in r.values()) for p in out})
 
 
 if __name__ == "__main__":
